@@ -608,6 +608,25 @@ impl<'tcx> Cx<'tcx> {
             ]));
         }
         items.push(("blocks", arr(blocks)));
+        // promoted constants (e.g. `&(1980..=2107)`): their tiny bodies, so that rules can see the values
+        let mut proms = vec![];
+        for pbody in tcx.promoted_mir(did).iter() {
+            let mut pblocks = vec![];
+            for (_bb, data) in pbody.basic_blocks.iter_enumerated() {
+                let stmts: Vec<String> = data.statements.iter().filter_map(|s| self.stmt(did, pbody, s)).collect();
+                let term = match &data.terminator {
+                    Some(t) => self.term(did, pbody, t),
+                    None => "null".into(),
+                };
+                pblocks.push(obj(vec![("stmts", arr(stmts)), ("term", term), ("cleanup", data.is_cleanup.to_string())]));
+            }
+            let mut plocals = vec![];
+            for (_l, d) in pbody.local_decls.iter_enumerated() {
+                plocals.push(obj(vec![("ty", esc(&self.ty(d.ty))), ("name", "null".into())]));
+            }
+            proms.push(obj(vec![("locals", arr(plocals)), ("blocks", arr(pblocks))]));
+        }
+        items.push(("promoted", arr(proms)));
         obj(items)
     }
 
@@ -718,6 +737,24 @@ impl<'tcx> Cx<'tcx> {
                         if let Ok(val) = tcx.const_eval_poly(did) {
                             if let Some(si) = val.try_to_scalar_int() {
                                 items.push(("v", si.to_bits_unchecked().to_string()));
+                            }
+                        }
+                    } else if let ty::Array(elem, _) = ty.kind() {
+                        if elem.is_integral() {
+                            if let Ok(val) = tcx.const_eval_poly(did) {
+                                if let rustc_middle::mir::ConstValue::Indirect { alloc_id, offset } = val {
+                                    if let Some(alloc) = tcx.try_get_global_alloc(alloc_id) {
+                                        if let rustc_middle::mir::interpret::GlobalAlloc::Memory(m) = alloc {
+                                            let a = m.inner();
+                                            let len = a.len();
+                                            let off = offset.bytes() as usize;
+                                            if len <= 1 << 16 && off <= len {
+                                                let bytes = a.inspect_with_uninit_and_ptr_outside_interpreter(off..len);
+                                                items.push(("bytes", arr(bytes.iter().map(|b| b.to_string()).collect())));
+                                            }
+                                        }
+                                    }
+                                }
                             }
                         }
                     } else if let ty::Ref(_, inner, _) = ty.kind() {
